@@ -17,7 +17,7 @@ func init() {
 		Property: "C12",
 		Explanation: "STRUCT comparison lint over verifyRAs' call graph (R-C12-1: no ==/!= on pointer-to-struct operands), " +
 			"SEE compared-field table (R-C12-2), GUARD absent-on-either-side returns nil before any comparison (R-C12-3), " +
-			"PATH reporting wiring in Advertiser.handle (R-C12-4) R-C12-5 also covers DNSSL names (stored in wire form by the parser); R-C12-6 a lifetime inconsistency is reported only after equal Prefix and PrefixLength (and Preference for routes) were established for the pair; R-C12-7 in checkPrefixes/checkRoutes an iteration that matched a pair continues the same loop (no break/return after the first match).",
+			"PATH reporting wiring in Advertiser.handle (R-C12-4) R-C12-5 also covers DNSSL names (stored in wire form by the parser); R-C12-6 a lifetime inconsistency is reported only after equal Prefix and PrefixLength (and Preference for routes) were established for the pair; R-C12-7 in checkPrefixes/checkRoutes an iteration that matched a pair continues the same loop (no break/return after the first match). R-C12-4 also: an RA-arm path of handle without a verifyRAs call is a path on which buildRA failed.",
 		Assumptions: []string{
 			"Go type checker and go/ssa construction are correct",
 			"ndp option values decoded from the wire are freshly allocated (never pointer-identical to locally built ones)",
